@@ -6,8 +6,10 @@ import tables
 SKIP_RET = {"dr :: Module", "& dr :: Module", "& mut dr :: Module", "Builder"}
 
 
-def arg_expr(ty, k, enums, masks):
+def arg_expr(ty, k, enums, masks, implicit=False):
     t = ty.replace(" ", "")
+    if implicit and t == "Option<spirv::Word>":
+        return "None"
     if t in ("spirv::Word", "u32"):
         return "%du32" % (100 + k)
     if t == "Option<spirv::Word>":
@@ -143,6 +145,31 @@ fn setup(state: u32) -> rspirv::dr::Builder {
         o.append('        "%s" => b.%s(%s).show(),' % (s["name"], s["name"], ", ".join(args)))
     o.append('        _ => return None,')
     o.append("    })\n}")
+    # same dispatcher with every Option<Word> argument None (implicit ids)
+    o.append("fn call_method_implicit(b: &mut rspirv::dr::Builder, name: &str) -> Option<String> {")
+    o.append("    Some(match name {")
+    for s in sigs:
+        if s["name"] not in seen or not s["pub"]:
+            continue
+        args = [arg_expr(ty, k, enums, masks, implicit=True) for k, (pn, ty) in enumerate(s["params"])]
+        if None in args:
+            continue
+        o.append('        "%s" => b.%s(%s).show(),' % (s["name"], s["name"], ", ".join(args)))
+    o.append('        _ => return None,')
+    o.append("    })\n}")
+    o.append("""
+pub fn builder_ids(name: &str, state: u32, next_id: u32, implicit: bool) -> String {
+    let b0 = setup(state);
+    let (sf, sb) = (b0.selected_function(), b0.selected_block());
+    let m = b0.module();
+    let mut b = rspirv::dr::Builder::verif_from_parts(m, next_id, sf, sb);
+    let r = if implicit { call_method_implicit(&mut b, name) } else { call_method(&mut b, name) };
+    match r {
+        Some(r) => format!("{{\\"result\\": {}, \\"next_id_before\\": {}, \\"next_id_after\\": {}}}", crate::ops::jstr(&r), next_id, b.verif_next_id()),
+        None => "{\\"error\\": \\"unknown or skipped method\\"}".to_string(),
+    }
+}
+""")
     call_fn = o[TAIL_MARK:]
     del o[TAIL_MARK:]
     o.append("""    let after = containers(b.module_ref());
